@@ -35,6 +35,7 @@ OptionLists ==
 ParamLists ==
   { <<>>,
     << Par(3, [Port |-> 443]), Par(1, [Alpn |-> << <<104, 50>>, <<104, 51>> >>]) >>,                 \* not in key order
+    << Par(4, [Hint |-> << <<1, 2, 3, 4>> >>]), Par(0, [Code |-> <<4, 1>>]), Par(1, [Alpn |-> << <<104>> >>]) >>,   \* keys and mandatory list out of order
     << Par(0, [Code |-> <<1, 4>>]), Par(1, [Alpn |-> << <<104>> >>]), Par(2, <<>>),
        Par(4, [Hint |-> << <<1, 2, 3, 4>> >>]), Par(65280, [Data |-> <<>>]) >> }
 
@@ -44,7 +45,7 @@ Typed(n) ==
   \cup { RR(n, 16, c, <<0, 0, 0, 0>>, [Txt |-> s]) : c \in {1, 3},
             s \in { << <<>> >>, << <<97>> >>, << <<0>>, <<255, 34>> >> } }
   \cup { RR(n, 47, 1, <<0, 0, 0, 0>>, [NextDomain |-> x, TypeBitMap |-> bm]) :
-            x \in { <<>>, << <<97>> >> }, bm \in { <<>>, <<1>>, <<1, 255, 256>>, <<65535>> } }
+            x \in { <<>>, << <<97>> >> }, bm \in { <<>>, <<1>>, <<1, 255, 256>>, <<65535>>, <<256, 1, 255>> } }
   \cup { RR(n, 65280, 1, <<0, 0, 0, 0>>, [Rdata |-> d]) : d \in { <<>>, <<0>>, <<1, 2>> } }
   \cup { ND(n, t, c) : t \in {1, 15, 255}, c \in {254, 255} }
   \cup (IF Big THEN
